@@ -45,7 +45,7 @@ ASSUMPTIONS = E1_ASSUMPTIONS + [
     "in a multi-input call all inputs share the output directory: the top-level index.rst is excluded from comparison, and the "
     "worlds of one history use disjoint top-level names",
     "output directories are never inside the input tree here"]
-PROBES = ["transient_listing_fault", "output_dir_reused", "op_run", "op_run_files", "op_run_file", "op_run_many", "op_stdout", "op_api", "op_documenter", "op_companion", "relocated", "cwd_changed",
+PROBES = ["parameter_strip_pattern_set", "transient_listing_fault", "output_dir_reused", "op_run", "op_run_files", "op_run_file", "op_run_many", "op_stdout", "op_api", "op_documenter", "op_companion", "relocated", "cwd_changed",
           "listing_key_changed", "world_of_interest_first", "world_of_interest_last", "world_of_interest_middle",
           "default_prefix", "explicit_prefix", "repeat_same_world_ge_3", "companion_hashseed_differs"]
 
@@ -88,6 +88,7 @@ def swarm(rng, tier):
         "patterns": rng.random() < 0.3,
         "classes": rng.random() < 0.5,
         "duplicates": rng.random() < 0.4,
+        "sig_twins": rng.random() < 0.4,
     }
 
 
@@ -112,6 +113,15 @@ def strategy(cfg):
                                                "n": draw(st.integers(0, 8))},
                                               {"k": cmakegen.KINDS.index("ct_test"), "doc": 1, "v": draw(st.integers(0, 3)), "n": 2}]}
                 tree[f"w{i}_classes.cmake"] = cmakegen.render(desc, f"c{i}").text
+            if cfg.get("sig_twins"):
+                # the same parameter list on several definitions, in several files and worlds; only some collect keyword
+                # arguments.  Together with a parameter-name strip pattern (below) this exercises per-signature state.
+                tree[f"w{i}_siga.cmake"] = (f"#[[[\n# Plain zqsa{i}.\n#]]\nfunction(zqsiga{i} name_in kind_in)\nendfunction()\n"
+                                           f"#[[[\n# Plain macro zqsm{i}.\n#]]\nmacro(zqsigm{i} name_in kind_in)\nendmacro()\n")
+                tree[f"w{i}_sigz.cmake"] = (f"#[[[\n# Keyword zqsz{i}.\n#]]\nfunction(zqsigz{i} name_in kind_in)\n"
+                                           f"    cmake_parse_arguments(zq \"\" \"OPT\" \"\" ${{ARGN}})\nendfunction()\n"
+                                           f"#[[[\n# Keyword macro zqsy{i}.\n#]]\nmacro(zqsigy{i} name_in kind_in)\n"
+                                           f"    cmake_parse_arguments(zq \"\" \"OPT\" \"\" ${{ARGN}})\nendmacro()\n")
             worlds.append({"name": f"proj{i}", "tree": tree})
         ops = []
         kinds = ["run", "run", "run", "stdout", "run_file", "run_files"]
@@ -143,7 +153,8 @@ def strategy(cfg):
                 # a pair whose effect depends on the ORDER of the patterns (gitignore: the last match wins)
                 keep = draw(st.sampled_from(names))
                 pats = pats + [keep[:1] + "*", "!" + keep]
-        return {"worlds": worlds, "ops": ops, "prefix": cfg["prefix"], "patterns": pats}
+        return {"worlds": worlds, "ops": ops, "prefix": cfg["prefix"], "patterns": pats,
+                "strip": bool(cfg.get("sig_twins")) and draw(st.booleans())}
     return world()
 
 
@@ -192,6 +203,11 @@ def evaluate(spec, ctx):
             extra += ["-p", spec["prefix"]]
         for p in spec["patterns"]:
             extra += ["-e", p]
+        if spec.get("strip"):
+            core.materialise(base, {"cfg17.yaml": "input:\n  function_parameter_name_strip_regex: \"_in$\"\n"
+                                                  "  macro_parameter_name_strip_regex: \"_in$\"\n"})
+            extra += ["-s", "{BASE}/cfg17.yaml"]
+            ctx.probes["parameter_strip_pattern_set"] += 1
 
         def record(i, mode, opi, pages, op):
             key = (i, mode)
@@ -369,6 +385,9 @@ def evaluate(spec, ctx):
                 cfiles[target] = None
                 for rel, c in wd["tree"].items():
                     cfiles[posixpath.join(target, rel)] = c
+                if spec.get("strip"):
+                    cfiles["cfg17.yaml"] = ("input:\n  function_parameter_name_strip_regex: \"_in$\"\n"
+                                            "  macro_parameter_name_strip_regex: \"_in$\"\n")
                 req = {"files": cfiles, "out": "out",
                        "call": {"cwd": cwd if cwd != "elsewhere" else "elsewhere",
                                 "argv": ["-r", "-o", "{BASE}/out"] + extra + [arg], "listing_key": op["key"]}}
